@@ -31,6 +31,8 @@ func checkC04(c *Ctx, r *Report) {
 	c04Vars(c, r, a)
 	c04Source(c, r, a)
 	c04Narrow(c, r, "C04.NARROW", "CoerceIn", 6)
+	r.rule("C04.BASE", "strconv.ParseInt / ParseUint in input coercers: base is the constant 10")
+	c04Base(c, r, "C04.BASE", "CoerceIn")
 	c04Input(c, r)
 	importRules(c, r, "C10", "C04.FDEF", "the argument declarations a value is coerced against are those of the field definition looked up in the container type of this evaluation (C10.FIELD): a definition taken from a type remembered on the parsed field coerces Int64-declared values for an Int argument", "C10.FIELD~lookup uses the container type")
 }
@@ -625,4 +627,31 @@ func c04Source(c *Ctx, r *Report, a *Anchors) {
 		}
 	}
 	r.floor("C04.SOURCE", "argument stores in the argument builder", n, 1)
+}
+
+// c04Base: an integer written as text denotes its decimal value. Every strconv.ParseInt / ParseUint in the
+// coercers of the given direction is called with the constant base 10 (base 0 lets a leading zero select
+// octal: "010" would arrive as 8).
+func c04Base(c *Ctx, r *Report, rule, method string) {
+	n := 0
+	for _, fn := range coercerFuncs(c, method) {
+		k := 0
+		for _, ci := range callsIn(fn) {
+			f := calleeObj(ci)
+			if f == nil || f.Pkg() == nil || f.Pkg().Path() != "strconv" || (f.Name() != "ParseInt" && f.Name() != "ParseUint") {
+				continue
+			}
+			args := ci.Common().Args
+			if len(args) < 2 {
+				continue
+			}
+			n++
+			k++
+			base, isC := args[1].(*ssa.Const)
+			ok := isC && base.Value != nil && base.Int64() == 10
+			r.check(rule, fmt.Sprintf("%s: integer text #%d is read as decimal", fnName(fn), k), ci.Pos(), ok,
+				"the base handed to "+f.Name()+" is not the constant 10: with base 0 a zero-padded decimal string is read as octal (\"010\" -> 8) and \"08\" is refused - the value is altered without an error")
+		}
+	}
+	r.floor(rule, "integer parses in "+method+" bodies and helpers", n, 1)
 }
